@@ -38,6 +38,8 @@ inductive HEv
   | idle                                                    -- the connection was run until nothing could move
   | retOk (c : Nat) (tok : Token) (tag : String)
   | retErr (c : Nat) (err : String)
+  | other (tok : Token) (tag : String)     -- a message of the peer was handed to somebody who is not a request call: an observation's
+                                           -- callback or the connection's default handler
   | close
   deriving Repr, DecidableEq
 
@@ -102,6 +104,10 @@ def jstep (s : JState) : HEv → Except String JState
     if s.mustAccept.contains c && isDupErr e then .error "accept-distinct"
     else if s.mustReject.contains c && !isDupErr e then .error "reject-duplicate"
     else .ok { s with active := s.active.filter (·.c ≠ c), mustReject := s.mustReject.filter (· ≠ c) }
+  | .other tok tag =>
+    -- "never delivered to two callers": what went to an observer / the default handler counts as delivered, too
+    if count (tok, tag) s.delivered + 1 > count (tok, tag) s.produced then .error "single-receiver"
+    else .ok { s with delivered := (tok, tag) :: s.delivered }
   | .close => .ok { s with closed := true, expect := [] }
 
 def jrun : JState → List HEv → Except String JState
